@@ -51,8 +51,9 @@ def _install_live_wrappers():
         return orig_pop(self, pkg)
 
     BF.process_order_package = process_order_package
-    BE = _F["BetfairExecution"]
-    for name in ("execute_place", "execute_cancel", "execute_update", "execute_replace"):
+    from flumine.execution.betdaqexecution import BetdaqExecution
+
+    for BE, name in [(_F["BetfairExecution"], n) for n in ("execute_place", "execute_cancel", "execute_update", "execute_replace")] + [(BetdaqExecution, n) for n in ("execute_place", "execute_cancel", "execute_update")]:
         orig = getattr(BE, name)
 
         def make(orig):
@@ -68,6 +69,7 @@ def _install_live_wrappers():
             return wrapper
 
         setattr(BE, name, make(orig))
+    BE = _F["BetfairExecution"]
 
 
 # --------------------------------------------------------------------------- tasks (baton passing)
@@ -530,6 +532,155 @@ class Exchange:
         return {"status": st, "marketId": mid, "instructionReports": reports}
 
 
+# --------------------------------------------------------------------------- Betdaq double
+
+
+class BetdaqExchange:
+    """Order table + method-level API stub for the Betdaq client (place / cancel / update, polling diffs)."""
+
+    def __init__(self, sim):
+        self.sim = sim
+        self.orders = {}  # order_id -> dict
+        self.next_id = 7000
+        self.seq = 0
+        self.poll = deque()  # pending polling batches (lists of order dicts)
+        self.calls = []
+
+    def _emit(self, o):
+        self.seq += 1
+        o["sequence_number"] = self.seq
+        self.poll.append([dict(o)])
+
+    # -- API (runs on pool task threads; parks like the HTTP transport does)
+    def _call(self, name, n):
+        self.sim.call_no += 1
+        self.calls.append((name, n))
+        plan = self.sim.fault_plan.get(self.sim.call_no, {})
+        t = self.sim.current_task
+        if t is not None:
+            t.park("request-in-flight")
+        if plan.get("transport") in ("conn_before",):
+            self.sim.res.faults["betdaq.api_error_before"] += 1
+            from betdaq import BetdaqError
+
+            raise BetdaqError("simulated")
+        return plan, t
+
+    def _done(self, plan, t):
+        if t is not None:
+            t.park("response-in-flight")
+        if plan.get("transport") in ("conn_after", "http503", "badjson", "aping"):
+            self.sim.res.faults["betdaq.api_error_after"] += 1
+            from betdaq import BetdaqError
+
+            raise BetdaqError("simulated")
+
+    def place_orders(self, order_list):
+        plan, t = self._call("place_orders", len(order_list))
+        out = []
+        for i, ins in enumerate(order_list):
+            rc = 0
+            outs = plan.get("reports") or []
+            if i < len(outs) and outs[i] and outs[i].startswith("FAILURE"):
+                rc = 137
+            rep = {"customer_reference": ins["PunterReferenceNumber"], "return_code": rc}
+            if not rc:
+                self.next_id += 1
+                o = {
+                    "order_id": self.next_id,
+                    "customer_reference": ins["PunterReferenceNumber"],
+                    "status": "Unmatched",
+                    "price": ins["Price"],
+                    "size": ins["Stake"],
+                    "matched_size": 0.0,
+                    "matched_price": 0.0,
+                    "remaining_size": ins["Stake"],
+                    "polarity": ins["Polarity"],
+                    "runner_id": ins["SelectionId"],
+                }
+                self.orders[self.next_id] = o
+                rep["order_id"] = self.next_id
+                self._emit(o)
+            out.append(rep)
+        if plan.get("shuffle"):
+            out = out[::-1]
+        self._done(plan, t)
+        return out
+
+    def cancel_orders(self, order_ids):
+        plan, t = self._call("cancel_orders", len(order_ids))
+        out = []
+        for oid in order_ids:
+            o = self.orders.get(oid)
+            if o is None or o["status"] not in ("Unmatched", "Suspended"):
+                continue  # nothing to cancel: not reported back
+            o["status"] = "Cancelled"
+            o["remaining_size"] = 0.0
+            self._emit(o)
+            out.append({"order_id": oid})
+        self._done(plan, t)
+        return out
+
+    def update_orders(self, order_list):
+        plan, t = self._call("update_orders", len(order_list))
+        out = []
+        for i, ins in enumerate(order_list):
+            o = self.orders.get(ins["BetId"])
+            outs = plan.get("reports") or []
+            fail = (i < len(outs) and outs[i] and outs[i].startswith("FAILURE")) or o is None or o["status"] not in ("Unmatched", "Suspended")
+            rep = {"order_id": ins["BetId"], "return_code": 22 if fail else 0}
+            if not fail:
+                o["price"] = ins["Price"]
+                o["remaining_size"] = round(max(0.0, o["remaining_size"] + (ins.get("DeltaStake") or 0.0)), 2)
+                self._emit(o)
+            out.append(rep)
+        self._done(plan, t)
+        return out
+
+    # -- exchange side
+    def fill(self, k, size):
+        ids = sorted(self.orders)
+        if not ids:
+            return False
+        o = self.orders[ids[k % len(ids)]]
+        if o["status"] not in ("Unmatched",):
+            return False
+        x = round(min(size, o["remaining_size"]), 2)
+        o["matched_size"] = round(o["matched_size"] + x, 2)
+        o["matched_price"] = o["price"]
+        o["remaining_size"] = round(o["remaining_size"] - x, 2)
+        if o["remaining_size"] == 0:
+            o["status"] = "Matched"
+        self._emit(o)
+        return True
+
+
+class _BdqBetting:
+    def __init__(self, ex):
+        self.ex = ex
+
+    def place_orders(self, order_list):
+        return self.ex.place_orders(order_list)
+
+    def cancel_orders(self, order_ids):
+        return self.ex.cancel_orders(order_ids)
+
+    def update_orders(self, order_list):
+        return self.ex.update_orders(order_list)
+
+
+class StubBetdaqAPI:
+    def __init__(self, ex, username):
+        self.username = username
+        self.betting = _BdqBetting(ex)
+
+        class _Acc:
+            def get_account_balances(self_inner):
+                return {}
+
+        self.account = _Acc()
+
+
 # --------------------------------------------------------------------------- agent (live flavour)
 
 
@@ -595,6 +746,7 @@ class LiveRun:
         self.current_task = None
         self.aborting = False
         self.exchange = Exchange(self)
+        self.bdq = BetdaqExchange(self)
         self.order_stream_id = 10000
         self.tape = list(scenario.get("tape") or [])
         self.tape_pos = 0
@@ -739,6 +891,8 @@ class LiveRun:
                 ch.append(("task", t))
         if self.exchange.ocm:
             ch.append(("ocm",))
+        if self.bdq.poll:
+            ch.append(("bdq",))
         if not self.draining:
             for m in self.scenario["markets"]:
                 if self.market_cursor[m["id"]] < len(m["updates"]):
@@ -805,6 +959,10 @@ class LiveRun:
                 self.resume(c[1])
             elif kind == "ocm":
                 self._deliver_ocm(self.exchange.ocm.popleft())
+            elif kind == "bdq":
+                batch = self.bdq.poll.popleft()
+                self.fw.handler_queue.put(_F["events"].CurrentOrdersEvent(batch, exchange=_F["clients"].ExchangeType.BETDAQ))
+                self.res.probes["live.betdaq_poll_delivered"] += 1
             elif kind == "dup":
                 self.res.faults["order_stream.duplicate_snapshot"] += 1
                 self._deliver_ocm(self.exchange.last_ocm, dup=True)
@@ -882,6 +1040,10 @@ class LiveRun:
                 self.fw.handler_queue.put(_F["events"].CustomEvent(ce.get("id"), cb))
 
     def _exchange_event(self, ev):
+        if self.scenario.get("betdaq") and ev["type"] == "fill":
+            if self.bdq.fill(ev.get("bet", 0), ev.get("size", 1.0)):
+                self.res.faults["betdaq.fill"] += 1
+            return
         ids = self.exchange.order
         if not ids:
             return
@@ -910,6 +1072,10 @@ class LiveRun:
 
         self.clients = []
         for i, cs in enumerate(sc.get("clients") or [{}]):
+            if cs.get("exchange") == "betdaq":
+                c = F["clients"].BetdaqClient(StubBetdaqAPI(self.bdq, "bdq%d" % i), transaction_limit=cs.get("limit", 5000), order_stream=True)
+                self.clients.append(c)
+                continue
             bc = betfairlightweight.APIClient("user%d" % i, "pw", app_key="k", lightweight=False)
             bc.login = lambda: None
             bc.logout = lambda: None
@@ -924,6 +1090,7 @@ class LiveRun:
         fw.handler_queue = SimQueue(self)
         fw._add_default_workers = lambda: None
         fw.betfair_execution._thread_pool = SimPool(self, cfg.get("max_workers", 32))
+        fw.betdaq_execution._thread_pool = SimPool(self, 1)
         fw.streams.start = lambda: None
         fw.streams.stop = lambda: None
         fw.add_logging_control(backtest.SyncLoggingControl())
